@@ -12,7 +12,7 @@ fn main() {
     let u = spec.universe().all_open();
     let idx = by_source(&u);
     ctx.run_slice(Slice::new(format!("assoc[{}]", spec.name()), u.len() as u64, |i, loc| check_assoc_from::<B>(&u, &idx, i as usize, loc)).heavy());
-    let spec2 = if quick { Spec::open(2, 1, 2, 2, 2, 2, 1) } else { Spec::open(3, 1, 2, 1, 1, 1, 1) };
+    let spec2 = if quick { Spec::open(2, 1, 2, 2, 2, 2, 1) } else { Spec::open(3, 1, 1, 1, 1, 1, 1) };
     let u2 = spec2.universe().all_open();
     let idx2 = by_source(&u2);
     if !quick {
